@@ -36,7 +36,7 @@ decode(data: bytes, cells=True, strings=True) -> dict
                   "protection": {attr: value}},
      "styles": {"part", "present": bool, "num_fmts":[{"id","code"}], "fonts": n, "fills": n, "borders": n,
                 "cell_style_xfs": n, "cell_xfs": [{"numFmtId","fontId","fillId","borderId","xfId"}] (-1 = absent),
-                "cell_styles": [{"name","xfId"}], "dxfs": n},
+                "cell_styles": [{"name","xfId"}], "dxfs": n, "dxf_list": [ decode_dxf() of every <dxf>, see there ]},
      "sst": {"part", "present": bool, "count": n, "items": [{"text","rich": bool,"runs":[str]}]},   # items only if strings
      "sheets": [ <sheet dict>, one per <sheet> of the workbook in workbook order ] }
 
@@ -758,9 +758,37 @@ def decode_table(pkg, part):
             "dxf_ids": _collect_dxf_ids(root)}
 
 
+def _flag(el):
+    """CT_BooleanProperty: <b/> and <b val="1"/> are true"""
+    return el is not None and el.get("val", "1").strip() in ("1", "true", "on")
+
+
+def decode_dxf(dxf):
+    """CT_Dxf (18.8.14) -> what it formats with: {"font": "" (no <font>) | "b" (bold) | "n" (a font, not bold),
+    "italic": bool, "font_rgb", "fg", "bg" (patternFill fgColor/bgColor @rgb, "" if absent or not rgb), "pattern",
+    "border": style of the left edge ("" if none), "numfmt": formatCode ("" if no <numFmt>),
+    "protection": bool (a <protection> child), "alignment": bool, "empty": bool (no child at all)}"""
+    font, fill, border = _child(dxf, "font"), _child(dxf, "fill"), _child(dxf, "border")
+    nf, prot, al = _child(dxf, "numFmt"), _child(dxf, "protection"), _child(dxf, "alignment")
+    pf = _child(fill, "patternFill") if fill is not None else None
+    fgc = _child(pf, "fgColor") if pf is not None else None
+    bgc = _child(pf, "bgColor") if pf is not None else None
+    fcol = _child(font, "color") if font is not None else None
+    left = _child(border, "left") if border is not None else None
+    lstyle = left.get("style", "") if left is not None else ""
+    return {"font": "" if font is None else ("b" if _flag(_child(font, "b")) else "n"),
+            "italic": _flag(_child(font, "i")) if font is not None else False,
+            "font_rgb": fcol.get("rgb", "") if fcol is not None else "",
+            "fg": fgc.get("rgb", "") if fgc is not None else "", "bg": bgc.get("rgb", "") if bgc is not None else "",
+            "pattern": pf.get("patternType", "") if pf is not None else "",
+            "border": "" if lstyle == "none" else lstyle,
+            "numfmt": nf.get("formatCode", "") if nf is not None else "", "protection": prot is not None,
+            "alignment": al is not None, "empty": len(list(dxf)) == 0}
+
+
 def decode_styles(pkg, part):
     st = {"part": part, "present": False, "wellformed": False, "num_fmts": [], "fonts": 0, "fills": 0, "borders": 0,
-          "cell_style_xfs": 0, "cell_xfs": [], "cell_styles": [], "dxfs": 0}
+          "cell_style_xfs": 0, "cell_xfs": [], "cell_styles": [], "dxfs": 0, "dxf_list": []}
     if not part or not pkg.exists(part):
         return st
     st["present"] = True
@@ -778,6 +806,9 @@ def decode_styles(pkg, part):
     st["fonts"], st["fills"], st["borders"] = count("fonts", "font"), count("fills", "fill"), count("borders", "border")
     st["cell_style_xfs"] = count("cellStyleXfs", "xf")
     st["dxfs"] = count("dxfs", "dxf")
+    dx = _child(root, "dxfs")
+    if dx is not None:
+        st["dxf_list"] = [decode_dxf(x) for x in _children(dx, "dxf")]
     cx = _child(root, "cellXfs")
     if cx is not None:
         for xf in _children(cx, "xf"):
